@@ -414,6 +414,7 @@ def execute(variant, case):
     d = get_drv(variant)
     problems, diags = [], []
     setup, fn, arg = case_call(case)
+    text_of_call = arg if fn in ("RunString", "LoadDatabaseString") else next((c[2] for c in setup if c[0] == "writefile"), None) or "\n".join(c[4] for c in setup if c[0] == "call" and c[3] == "AccumulateLine")
     ref = reference(variant, survivors_of(setup))
     fresh(d)
     d.cmd("mkdir", "adir")
@@ -472,7 +473,7 @@ def execute(variant, case):
         if fn.startswith("LoadDatabase") and rc == 0:
             rc2 = api(d, "RunString", G.read("minidb_probe.in"), phase="run after the accepted database ", timeout=CALL_TIMEOUT)
             err2 = d.cmd("call", "s0", "c", "GetErrorString")["r"]
-            observe(d)
+            observe(d, "sut")
             ops += 1
             if (rc2 != 0) != (n_errors(err2) > 0):
                 first = next((l for l in err2.splitlines() if l.startswith("ERROR:")), "")
@@ -497,7 +498,15 @@ def execute(variant, case):
                 what = "after %s (rc %d) and a successful LoadDatabase the probe differs from a brand-new instance in %s\n%s" % (
                     fn, rc, ", ".join(chans), first_diff(o2.get(k0, o2.get("sel")), ref.get(k0, ref.get("sel"))))
                 if failed:
-                    problems.append(("reload after a failed call is not the fresh state: %s" % ",".join(chans[:6]), what))
+                    # the engine keeps DUMP / DELETE / RUN_CELLS requests in members that neither a failed run nor
+                    # LoadDatabase resets (Phreeqc::dump_info, delete_info, run_info): name that mechanism by the
+                    # request blocks of the failed input; anything else is named by the differing channels
+                    req = sorted(set(l.split()[0].upper() for l in (text_of_call or "").split("\n") if l.split() and l.split()[0].upper() in ("DUMP", "DELETE", "RUN_CELLS")))
+                    if req:
+                        fp = "reload after a failed call is not the fresh state: pending %s request of the failed input survives the load" % "+".join(req)
+                    else:
+                        fp = "reload after a failed call is not the fresh state: %s" % ",".join(chans[:6])
+                    problems.append((fp, what))
                 else:
                     diags.append("C07 matter (call succeeded): " + what[:300])
         api(d, "DestroyIPhreeqc", phase="destroy ")
@@ -527,8 +536,15 @@ def run_case(case):
         try:
             res = execute("rel", case)
             res["outcome"] = "ubsan+" + res.get("outcome", "")
+            # the report of the instrumented build names the site of a fault that the uninstrumented build then shows
+            site = e.fp.split(": ", 1)[1] if ": " in (e.fp or "") else str(e.fp)
+            res["problems"] = [("%s, after %s" % (fp, site), "%s\non the sanitizer build the same case stops with: %s" % (what, e.what)) if fp.startswith(("crash in", "exception escapes", "process exit")) else (fp, what)
+                               for fp, what in res["problems"]]
         except CallFailure as e2:
-            res = {"problems": [(e2.fp, e2.what)], "diagnostics": [], "outcome": "abnormal", "ops": 3, "script": ""}
+            # the report of the instrumented build names the site of the fault that the uninstrumented build then shows
+            site = e.fp.split(": ", 1)[1] if ": " in (e.fp or "") else e.fp
+            res = {"problems": [("%s, after %s" % (e2.fp, site), "%s\non the sanitizer build the same case stops with: %s" % (e2.what, e.what))], "diagnostics": [], "outcome": "abnormal", "ops": 3,
+                   "script": "\n".join(getattr(get_drv("rel"), "dead_log", [])) + "\n"}
     seen, uniq = set(), []
     for p in res["problems"]:
         if p[0] not in seen:
@@ -539,6 +555,9 @@ def run_case(case):
     res["case"] = case
     res["states"] = [core.sha(json.dumps(case, sort_keys=True))]
     res["sample"] = {"case": case, "observed": res.pop("summary", None)}
+    if os.environ.get("C08_LOG"):             # calibration aid only: one line per executed case
+        with open(os.environ["C08_LOG"], "a") as f:
+            f.write(json.dumps({"case": case, "outcome": res.get("outcome"), "problems": [p[0] for p in res["problems"]], "diag": [x[:200] for x in res["diagnostics"]]}) + "\n")
     return res
 
 
@@ -646,6 +665,7 @@ def bounds(tier):
             ("undefined entity numbers: USE/SAVE/COPY/DELETE/DUMP/RUN_CELLS/MIX x kind x %s (COPY targets: solution and cell only)" % G.ENT_NUMS, ent_cases(False), 4),
             ("tiny strings: every string of length <= 2 over %r as input text, database text, RunFile name, LoadDatabase name" % G.TINY_ALPHABET, tiny_cases(2), 8),
             ("database text: mini database, every line deleted (string) / truncated after every line (file)", db_cases("quick"), 4),
+            ("truncated BASIC: every prefix of program 1 in USER_PRINT and CALCULATE_VALUES", [c for c in basic_cases() if c["p"] == 0 and c["h"] in ("user_print", "calc")], 8),
             ("D1: every single deviation of the base inputs %s" % G.QUICK_D1, d1_cases(G.QUICK_D1), 8),
         ]
     return [
